@@ -59,9 +59,12 @@ Definition step (s : st) (r : list Z) : option st :=
       | None => negb closedish || ((0 <=? pf r 20) && (pf r 20 <=? t + 3 * pf r 12 + 4))
       | Some _ => true
       end in
-    (* a drained connection has no timers armed *)
+    (* a drained connection has no timers armed - except KeyDiscard (21) and PushNewCid (25): the
+       latter is re-armed by a NewIdentifiers answer of the endpoint that arrives after close();
+       letting it expire is a no-op (the zombie rule below rejects any endpoint event, transmit or
+       application event of a drained connection, whose deadlines the simulator keeps servicing) *)
     let ok2 := negb (stt =? 4) ||
-               forallb (fun i => pf r i =? -1) [18;19;20;22;23;24;25;26]%nat in
+               forallb (fun i => pf r i =? -1) [18;19;20;22;23;24;26]%nat in
     if ok && ok2 then Some (setc s k c1) else None
   else if tag r =? 1 then
     if fld r 8 =? 0 then
